@@ -174,7 +174,7 @@ func parseLoadArgs(args []string) (mk *io.TimeBucketKey, inputFD, controlFD *os.
 			}
 			continue
 		} else {
-			return nil, nil, nil, err
+			return nil, nil, nil, fmt.Errorf("%s is empty", arg)
 		}
 	}
 
